@@ -14,7 +14,9 @@ RULE = ("Generated particle sets (N 1..12, masses incl. exact zeros and ratios 1
         "ctypes Particle arrays passed to the exported reb_particles_transform_* functions (all four coordinate "
         "systems per case), to reb_integrator_{mercurius,trace}_inertial_to_dh/dh_to_inertial and to "
         "move_to_hel/move_to_com.  Oracles: mpmath evaluation of the textbook definitions (forward map, slot 0 = "
-        "total active mass + COM), inverse(forward(x)) = x, pos/posvel/acc variant agreement; tolerance "
+        "total active mass + COM), inverse(forward(x)) = x, pos/posvel/acc variant agreement; the six Jacobi entry points "
+        "also with a separate p_mass array whose masses differ from the .m members of the transformed set (variational-"
+        "particle calling convention; oracle built from the p_mass masses); tolerance "
         "K*eps*(|B||A|1)_i*max|x| from the oracle's own matrices.  Non-trivial = N>=3 and (N_active<N or a "
         "zero-mass body or a mass ratio < 1e-9); distinct by case hash.")
 ASSUMPTIONS = [
@@ -346,6 +348,93 @@ def run_variants(case, ctx):
 
 
 # ---------------------------------------------------------------------------------------
+# Jacobi entry points with a SEPARATE p_mass array (how WHFast transforms variational particles: the set being
+# transformed is particles+index whose .m members are 0 or mass variations, the masses come from the real particles).
+# Only the six Jacobi functions take a p_mass argument; the other systems read the masses from the arrays themselves.
+
+@st.composite
+def pmass_case(draw):
+    ps = draw(particle_set(nmin=1, nmax=10))
+    N = len(ps["m"])
+    m0 = ps["m"][0]
+    kind = draw(st.sampled_from(["zeros", "variation", "variation", "scaled"]))
+    if kind == "zeros":
+        sm = [0.0] * N
+    elif kind == "scaled":
+        f = draw(st.sampled_from([0.5, 3.0, 1e-3]))
+        sm = [x * f for x in ps["m"]]
+    else:
+        sm = [draw(st.one_of(st.just(0.0), S.floats(-1.0, 1.0), S.floats(-1.0, 1.0))) * m0 for _ in range(N)]
+    return dict(ps, set_m=sm)
+
+
+def run_pmass(case, ctx):
+    import mpmath as mp
+    N, n = len(case["m"]), case["n_active"]
+    K = K_of(N)
+    classify(case, ctx, "jacobi_pmass")
+    if case["set_m"] != case["m"]:
+        ctx.cls("set_masses_differ")
+    if all(x == 0.0 for x in case["set_m"]):
+        ctx.cls("set_masses_zero")
+    o = oracle(case, "jacobi")                     # linear map built from the p_mass masses
+
+    def set_array():
+        A = make_array(case)
+        for i in range(N):
+            A[i].m = case["set_m"][i]
+        return A
+    A = set_array()
+    P = make_array(case, sentinel=True, masses=True)     # masses only: coordinates of p_mass must never be read
+    outs = {}
+    for nme in ("inertial_to_jacobi_posvel", "inertial_to_jacobi_posvelacc", "inertial_to_jacobi_acc"):
+        B = make_array(case, sentinel=True, masses=False)
+        call(nme, B, A, P, N, n)
+        outs[nme] = B
+        which = {"inertial_to_jacobi_posvel": "xv", "inertial_to_jacobi_posvelacc": "xva", "inertial_to_jacobi_acc": "a"}[nme]
+        for w in which:
+            cmp_block(block(B, N, w), o[w]["y"], o[w]["fwd"], o[w]["max"], K,
+                      "%s with separate p_mass: %s" % (nme, {"x": "positions", "v": "velocities", "a": "accelerations"}[w]),
+                      ctx, "pmass_fwd_err/tol", entry=nme)
+        if "x" in which:
+            M = o["M"]
+            if abs(mp.mpf(B[0].m) - M) > K * EPS * M:
+                raise Violation("%s with separate p_mass: slot 0 mass %.17g, sum of the active p_mass masses %s"
+                                % (nme, B[0].m, mp.nstr(M, 20)), entry=nme)
+    # variant agreement on identical inputs
+    Bpv, Bpva, Ba = (outs[k] for k in ("inertial_to_jacobi_posvel", "inertial_to_jacobi_posvelacc", "inertial_to_jacobi_acc"))
+    for w, other in (("x", Bpv), ("v", Bpv), ("a", Ba)):
+        cmp_block(block(Bpva, N, w), cols(block(other, N, w)), o[w]["fwd"], o[w]["max"], 2 * K,
+                  "separate p_mass: posvelacc vs %s variant (%s)" % ("acc" if w == "a" else "posvel", w), ctx, "pmass_var_err/tol")
+    # inverses (posvel, pos, acc) applied to the posvelacc image and to the posvel/acc images return the original set
+    relax = 1.0
+    if ctx.finding_open(KEY_JACOBI) and heavy_ratio(case) > 8:
+        ctx.excluded(KEY_JACOBI)
+        relax = n * heavy_ratio(case)
+    stat = "pmass_rt_err/tol" if relax == 1.0 else "pmass_rt_err/tol(relaxed)"
+    for label, Bxv, Bacc in (("posvelacc", Bpva, Bpva), ("posvel/acc", Bpv, Ba)):
+        C = make_array(case, sentinel=True, masses=False)
+        call("jacobi_to_inertial_posvel", C, Bxv, P, N, n)
+        for w in ("x", "v"):
+            cmp_block(block(C, N, w), cols(case[w]), [r * relax for r in o[w]["rt"]], o[w]["max"], K,
+                      "separate p_mass: jacobi_to_inertial_posvel(%s image) %s" % (label, w), ctx, stat, heavy_ratio=heavy_ratio(case))
+        Cp = make_array(case, sentinel=True, masses=False)
+        call("jacobi_to_inertial_pos", Cp, Bxv, P, N, n)
+        cmp_block(block(Cp, N, "x"), cols(case["x"]), [r * relax for r in o["x"]["rt"]], o["x"]["max"], K,
+                  "separate p_mass: jacobi_to_inertial_pos(%s image)" % label, ctx, stat, heavy_ratio=heavy_ratio(case))
+        Bq = Bacc
+        if Bacc is Ba:
+            Bq = make_array(case, sentinel=True, masses=False)      # acc variant writes no slot-0 mass: supply it
+            for i in range(N):
+                Bq[i].ax, Bq[i].ay, Bq[i].az = Ba[i].ax, Ba[i].ay, Ba[i].az
+            Bq[0].m = Bpv[0].m
+        Ca = make_array(case, sentinel=True, masses=False)
+        call("jacobi_to_inertial_acc", Ca, Bq, P, N, n)
+        cmp_block(block(Ca, N, "a"), cols(case["a"]), [r * relax for r in o["a"]["rt"]], o["a"]["max"], K,
+                  "separate p_mass: jacobi_to_inertial_acc(%s image)" % label, ctx, stat, heavy_ratio=heavy_ratio(case))
+
+
+# ---------------------------------------------------------------------------------------
 # hybrid integrators' heliocentric shifts and the public frame changes (operate on a Simulation)
 
 hybrid_case = st.fixed_dictionaries({
@@ -462,6 +551,7 @@ def subs(tier):
         Sub("definition", run_definition, strategy=particle_set(), quick=1600, thorough=24000, shards_quick=8, shards_thorough=16),
         Sub("roundtrip", run_roundtrip, strategy=particle_set(), quick=1600, thorough=24000, shards_quick=8, shards_thorough=16),
         Sub("variants", run_variants, strategy=particle_set(), quick=1200, thorough=16000, shards_quick=8, shards_thorough=16),
+        Sub("jacobi_pmass", run_pmass, strategy=pmass_case(), quick=640, thorough=12000, shards_quick=8, shards_thorough=16),
         Sub("hybrid_dh", run_hybrid, strategy=hybrid_case, quick=1600, thorough=24000, shards_quick=8, shards_thorough=16),
         Sub("frames", run_frames, strategy=frames_case, quick=800, thorough=12000, shards_quick=4, shards_thorough=8),
     ]
